@@ -1367,7 +1367,7 @@ func c05R8(c *Ctx, p *Prog) {
 			}
 		}
 	}
-	c.Floor(rule, n, 8, "emission sites in the generator")
+	c.Floor(rule, n, 3, "emission sites in the generator")
 }
 
 func c05LoopOrStateCond(v ssa.Value) bool {
